@@ -9,6 +9,7 @@ import (
 	"bytes"
 	"fmt"
 	"strings"
+	"sync"
 	"testing"
 
 	"github.com/trustbloc/sidetree-go/pkg/api/protocol"
@@ -513,4 +514,60 @@ func rehashDelta(m *opBuild, alg uint) {
 		m.sign()
 	}
 	m.assemble()
+}
+
+// TestC07_Concurrent: a parser accepts what the protocol allows also when it is brand new and several goroutines hand it
+// their first requests at the same moment (anything a parser builds lazily is then built under contention).
+func TestC07_Concurrent(t *testing.T) {
+	st := statsFor("C07")
+	check(t, "C07", 40, func(t *rapid.T) {
+		n := rapid.IntRange(2, 8).Draw(t, "goroutines")
+		rounds := rapid.IntRange(1, 10).Draw(t, "rounds")
+		type job struct {
+			typ string
+			raw []byte
+		}
+		var jobs []job
+		p := wideProtocol()
+		for len(jobs) < n {
+			typ := rapid.SampledFrom([]string{"create", "update", "recover", "deactivate"}).Draw(t, "opType")
+			b, _, nonceSize := genC07Valid(t, typ, st)
+			if nonceSize != int(p.NonceSize) && b.SignKey != nil && b.SignKey.Nonce != "" {
+				continue // one shared configuration: keep the requests that fit its nonce size
+			}
+			if typ == "create" && (b.NextRecov.Nonce != "" || b.NextUpdate.Nonce != "") && nonceSize != int(p.NonceSize) {
+				continue
+			}
+			jobs = append(jobs, job{typ, b.bytes()})
+		}
+		// a new parser for every round: each one meets all goroutines at its very first use
+		for r := 0; r < rounds*10; r++ {
+			fresh := newStack(p)
+			errs := make(chan string, n)
+			var wg sync.WaitGroup
+			start := make(chan struct{})
+			for i := range jobs {
+				wg.Add(1)
+				go func(j job) {
+					defer wg.Done()
+					<-start
+					op, err := fresh.Parser.Parse("did:sidetree", j.raw)
+					if err != nil {
+						errs <- fmt.Sprintf("valid %s refused: %v\n%s", j.typ, err, clip(string(j.raw), 800))
+						return
+					}
+					if string(op.Type) != j.typ || !bytes.Equal(op.OperationRequest, j.raw) {
+						errs <- fmt.Sprintf("accepted %s reported as %s / other bytes", j.typ, op.Type)
+					}
+				}(jobs[i])
+			}
+			close(start)
+			awaitWorkers(t, &wg, "C07 concurrent first use of a parser")
+			close(errs)
+			for e := range errs {
+				t.Fatalf("C07 (a new parser used by %d goroutines at once, round %d) %s", n, r, e)
+			}
+		}
+		st.Case(n >= 3, fmt.Sprint("concurrent|", n, rounds, string(jobs[0].raw)), "concurrent", fmt.Sprintf("goroutines-%d", n))
+	})
 }
